@@ -107,7 +107,30 @@ class PendingComp(PendingExprGeneric[_CompNode]):
         for comp in self.node.generators:
             self.get_comp_target_names(comp.target)
 
+    def _iter_fields(self):
+        # The iterable of the first `for` is evaluated in the enclosing scope,
+        # so it is converted before the targets start to shadow outer names:
+        # in `[i for i in i]` the last `i` is not the target
+        first = self.node.generators[0]
+        first_iter = yield first.iter
         self.nsp.comp_stack.append(self)
+        generators = []
+        for comp in self.node.generators:
+            target = yield comp.target
+            _iter = first_iter if comp is first else (yield comp.iter)
+            ifs = []
+            for _if in comp.ifs:
+                ifs.append((yield _if))
+            generators.append(
+                comprehension(
+                    target=target, iter=_iter, ifs=ifs, is_async=comp.is_async
+                )
+            )
+        for field_name in self.node._fields:
+            if field_name == "generators":
+                self.converted_dict[field_name] = generators
+            else:
+                self.converted_dict[field_name] = yield getattr(self.node, field_name)
 
     def get_result(self) -> expr:
         assert self.nsp.comp_stack[-1] is self
